@@ -451,5 +451,11 @@ WITNESSES = [
     {"name": "cell-without-offset", "file": _F, "rule": "C19.b", "old": "p = pos[k] + vec[k][v]", "new": "p = vec[k][v]"},
     {"name": "skip-errors-inverted", "file": _F, "rule": "C19.b", "old": "            b = not self.skip_errors\n\n            for i, row", "new": "            b = self.skip_errors\n\n            for i, row"},
 ]
+# witnesses of the rules added after the ninth round of independent changes
+WITNESSES += [
+    {"name": "categorical-columns-by-values", "file": _F, "rule": "C19.b", "old": "columns = [c for c, d in zip(X.columns, X.dtypes) if d in (object,)]", "new": "columns = [c for c in X.columns if pandas.api.types.is_string_dtype(X[c])]"},
+]
+
+
 TWINS = []
 MIN_WITNESSES = 8
